@@ -792,11 +792,7 @@ var witnesses = []struct {
 	{sigOpaqueSuffix, &MsgSpec{Name: "M", Fields: []FieldSpec{F("_foo", 1, -1), F("x_foo", 2, -1), F("XFoo_2", 3, -1)}}},
 	{sigWrapper, &MsgSpec{Name: "M", Fields: []FieldSpec{F("a", 1, 0), F("a_", 2, 0)}, Oneofs: []string{"o"}, Msgs: []string{"A"}}},
 	{sigOneofGetter, &MsgSpec{Name: "M", Fields: []FieldSpec{F("get_x", 1, -1), F("a", 2, 0)}, Oneofs: []string{"x"}}},
-	{sigOneofRelease, &MsgSpec{Name: "M", Fields: []FieldSpec{F("a", 1, 0), F("b", 2, 1), F("GetX", 3, -1)}, Oneofs: []string{"get_x", "x"}}},
-	{sigOneofRelease, &MsgSpec{Name: "M", Fields: []FieldSpec{F("GetGetX", 1, -1), F("a", 2, 0), F("b", 3, 1), F("c", 4, 2), F("d", 5, 3), F("get_get_x", 6, -1)},
-		Oneofs: []string{"get_x", "getGetX", "x", "GetX"}}},
 	{sigOneofCamel, &MsgSpec{Name: "M", Fields: []FieldSpec{F("a", 1, 0), F("fooBar", 2, -1)}, Oneofs: []string{"foo_bar"}}},
-	{sigProtoReflect, &MsgSpec{Name: "M", Fields: []FieldSpec{F("proto_reflect", 1, -1)}}},
 }
 
 func runMessages(c *vh.Ctx) {
@@ -807,8 +803,17 @@ func runMessages(c *vh.Ctx) {
 			Input{Kind: "msg", Spec: w.spec, Line: w.spec.line()}, "")
 		checkMsg(c, w.spec, "witness")
 	}
+	// schemas of the two repaired findings (25d16a6, f3220dc): any duplicate they produce again is unclassified
+	for _, m := range []*MsgSpec{
+		{Name: "M", Fields: []FieldSpec{F("proto_reflect", 1, -1)}},
+		{Name: "M", Fields: []FieldSpec{F("a", 1, 0), F("b", 2, 1), F("GetX", 3, -1)}, Oneofs: []string{"get_x", "x"}},
+		{Name: "M", Fields: []FieldSpec{F("GetGetX", 1, -1), F("a", 2, 0), F("b", 3, 1), F("c", 4, 2), F("d", 5, 3), F("get_get_x", 6, -1)},
+			Oneofs: []string{"get_x", "getGetX", "x", "GetX"}},
+	} {
+		checkMsg(c, m, "repaired-witness")
+	}
 	// reserved method names, one field each: the Go name must be moved out of the way
-	for _, n := range []string{"reset", "string", "proto_message", "marshal", "unmarshal", "extension_range_array", "extension_map", "descriptor"} {
+	for _, n := range []string{"reset", "string", "proto_message", "proto_reflect", "marshal", "unmarshal", "extension_range_array", "extension_map", "descriptor"} {
 		checkMsg(c, &MsgSpec{Name: "M", Fields: []FieldSpec{F(n, 1, -1)}}, "reserved")
 		checkMsg(c, &MsgSpec{Name: "M", Fields: []FieldSpec{F("get_"+n, 1, -1), F(n, 2, -1)}}, "reserved")
 	}
